@@ -16,8 +16,12 @@ ASSUMPTIONS = [
     'delta (PDUs written, objects handed to the user, connection, timer, state) is compared with the reference machine '
     'vt/refs/ul_machine.py (PS3.8 Table 9-10 transcription + ARTIM + transport) after every step',
     'alphabet: each of the 7 PDU types (valid), a partial DIMSE message (non-final P-DATA fragment) and its remaining fragments, an unrecognised PDU '
-    'type, transport close, ARTIM expiry (+11 s), non-expiring time advance (+1 s), and every user primitive that is '
-    'legal in the reference state; P-DATA indications are per complete DIMSE message (the library reassembles)',
+    'type, transport close, nothing, and every user primitive that is legal in the reference state; before every '
+    'event the clock advances by a symbolic amount 0..30 s and the ARTIM timer expires iff it has then been running '
+    'for more than its limit since its last (re)start in the reference (exactly the limit: either is accepted); '
+    'P-DATA indications are per complete DIMSE message (the library reassembles)',
+    'two peer events delivered in one transport segment are handled as if delivered one after the other; bytes that '
+    'follow a PDU on which the reference closes the transport connection are never interpreted',
     'histories: from every protocol state reachable by a canonical prefix (both roles, incl. the release-collision '
     'states) every event and every pair of events (quick) / triple (thorough) - symbolic selectors',
 ]
@@ -62,8 +66,10 @@ def user_prim(name):
 
 
 USER_TYPE = {'u1': 1, 'u2': 2, 'u3': 3, 'u4': 4, 'u5': 5, 'u6': 6, 'u7': 7}
-ALPHABET = ['p1', 'p2', 'p3', 'p4', 'p5', 'p6', 'p7', 'p4part', 'p4rest', 'pbad', 'pclose', 'expire', 'tick',
+ALPHABET = ['p1', 'p2', 'p3', 'p4', 'p5', 'p6', 'p7', 'p4part', 'p4rest', 'pbad', 'pclose', 'idle',
             'u2', 'u3', 'u4', 'u5', 'u6', 'u7']
+PEER_EVENTS = ['p1', 'p2', 'p3', 'p4', 'p5', 'p6', 'p7', 'p4part', 'p4rest', 'pbad', 'pclose']
+ARTIM_LIMIT = 10            # seconds (dulprovider.Timer(10)); PS3.8 leaves the value to the implementation
 
 
 class StepSocket(sim.SimSocket):
@@ -154,8 +160,25 @@ class Stepper(object):
             self.clock.now = self.clock.now + 11
         elif name == 'tick':
             self.clock.now = self.clock.now + 1
+        elif name == 'idle':
+            pass
         else:
             self.prov.from_service_user.put(user_prim(name))
+        self.run()
+
+    def advance(self, dt):
+        """the clock moves on by dt (any non-negative amount) while nothing else happens"""
+        self.clock.now = self.clock.now + dt
+        self.run()
+
+    def inject_glued(self, first, second):
+        """the peer's next two events arrive in ONE transport segment (second may be the close)"""
+        seg = PEER[first]
+        if second == 'pclose':
+            self.sock.eof = True
+        else:
+            seg = seg + PEER[second]
+        self.sock.inbox.append(seg)
         self.run()
 
     def delta(self):
@@ -204,7 +227,7 @@ def ref_apply(r, name):
         if r.artim:
             return r.step(18)
         return [], []
-    if name == 'tick':
+    if name in ('tick', 'idle'):
         return [], []
     t = USER_TYPE[name]
     if name == 'u1':
@@ -291,23 +314,49 @@ def _depth():
     return 3 if tier() == 'thorough' else 2
 
 
+def ref_advance(r, dt):
+    """the reference's clock moves on by dt: -> expected delta, or 'boundary' when the ARTIM timer has then been
+    running for exactly its limit (whether that instant already counts as expired is left to the implementation)"""
+    el = r.elapsed_after(dt)
+    r.now = r.now + dt
+    if el is None or el < ARTIM_LIMIT:
+        return [], []
+    if el == ARTIM_LIMIT:
+        return 'boundary'
+    return r.step(18)
+
+
 @cond(bounds='from each protocol state reached by a canonical history (16 instances: acceptor Sta2,3,6,7,8,10,12,13 and '
-             'mid-message; requestor Sta1,5,6,7,9,11,13): every sequence of 2 (quick) / 3 (thorough) events chosen by '
-             'symbolic selectors from the 20-event alphabet (events that cannot occur / are not legal in the reference '
-             'state are skipped), provider compared with the reference machine after every step',
-      family=[dict(start=k) for k in sorted(PREFIX)], timeout=300, thorough_timeout=1800)
-def lockstep(e1: int, e2: int, e3: int) -> bool:
+             'mid-message; requestor Sta1,5,6,7,9,11,13): every sequence of 2 (quick) / 3 (thorough) steps, each step = '
+             'the clock advances by a SYMBOLIC amount dt in 0..30 s (ARTIM expiry decided by the solver against the '
+             'instant of the last start / restart of the reference timer), then one event chosen by a symbolic selector '
+             'from the 19-event alphabet (events that cannot occur / are not legal in the reference state are '
+             'skipped); provider compared with the reference machine after every advance and every event',
+      family=[dict(start=k) for k in sorted(PREFIX)], timeout=400, thorough_timeout=2400)
+def lockstep(e1: int, e2: int, e3: int, dt1: int, dt2: int, dt3: int) -> bool:
     """
     pre: 0 <= e1 < len(ALPH_REQ1) and 0 <= e2 < len(ALPH_REQ1) and 0 <= e3 < len(ALPH_REQ1)
-    pre: _depth() == 3 or e3 == 0
+    pre: 0 <= dt1 <= 30 and 0 <= dt2 <= 30 and 0 <= dt3 <= 30
+    pre: _depth() == 3 or (e3 == 0 and dt3 == 0)
     post: _
     """
-    st, r, ok = start(fam('start'))
+    with sim._no_tracing():               # the canonical prefix is concrete: run it outside the tracer
+        st, r, ok = start(fam('start'))
     if not ok:
         return False
     n = 0
-    for e in (e1, e2, e3)[:_depth()]:
+    for e, dt in ((e1, dt1), (e2, dt2), (e3, dt3))[:_depth()]:
         name = ALPH_REQ1[pick(e, 0, len(ALPH_REQ1) - 1)]
+        running = r.artim
+        exp = ref_advance(r, dt)
+        if exp == 'boundary':
+            return True
+        if running:
+            st.advance(dt)
+            if not agree(st, r, 'tick', exp):
+                return False
+        else:
+            st.clock.now = st.clock.now + dt      # a timer wrongly left running shows up at the next event
         exp = None
         try:
             exp = ref_apply(r, name)
@@ -323,11 +372,95 @@ def lockstep(e1: int, e2: int, e3: int) -> bool:
     return True
 
 
+def ref_apply_glued(r, first, second):
+    """two peer events in one segment: the reference handles them one after the other; what arrives after the
+    reference has closed the transport connection is discarded unread"""
+    a = ref_apply(r, first)
+    if a is None:
+        return None
+    if not r.transport:
+        return a                          # the second event is never looked at
+    b = ref_apply(r, second)
+    if b is None:
+        return None
+    return a[0] + b[0], a[1] + b[1]
+
+
+@cond(bounds='from each of the 16 start states: every ordered PAIR of peer events (7 PDU types, partial message / rest, '
+             'unrecognised PDU, close; symbolic selectors) delivered in ONE transport segment, followed by one further '
+             'event of the full alphabet (thorough tier); compared with the reference machine handling them one after '
+             'the other (bytes behind a PDU that ends the association are discarded)',
+      family=[dict(start=k) for k in sorted(PREFIX) if k != 'req_sta1'], timeout=300, thorough_timeout=1800)
+def glued(e1: int, e2: int, e3: int) -> bool:
+    """
+    pre: 0 <= e1 < len(PEER_EVENTS) - 1 and 0 <= e2 < len(PEER_EVENTS) and 0 <= e3 < len(ALPHABET)
+    pre: _depth() == 3 or e3 == 0
+    post: _
+    """
+    with sim._no_tracing():
+        st, r, ok = start(fam('start'))
+    if not ok:
+        return False
+    first = PEER_EVENTS[pick(e1, 0, len(PEER_EVENTS) - 2)]
+    second = PEER_EVENTS[pick(e2, 0, len(PEER_EVENTS) - 1)]
+    try:
+        exp = ref_apply_glued(r, first, second)
+    except ref.Undefined:
+        exp = None
+    if exp is None:
+        return True                       # not a conversation a conformant peer can produce
+    st.inject_glued(first, second)
+    if not agree(st, r, 'glued', exp):
+        return False
+    if _depth() == 3:
+        name = ALPHABET[pick(e3, 0, len(ALPHABET) - 1)]
+        try:
+            exp = ref_apply(r, name)
+        except ref.Undefined:
+            exp = None
+        if exp is not None:
+            st.inject(name)
+            if not agree(st, r, name, exp):
+                return False
+    deep(True)
+    return True
+
+
+def _explain_step(st, r, name, exp, out):
+    sent = st.sock.sent[st.n_sent:]
+    ind = st.prov.to_service_user.log[st.n_ind:]
+    okk = agree(st, r, name, exp)
+    out.append('%s: reference -> Sta%d sends %r indicates %r transport=%r artim=%r | provider -> Sta%d sends %r '
+               'indicates %r transport=%r artim=%r err=%r %s' % (
+                   name, r.state, exp[0], exp[1], r.transport, r.artim, st.state(), [s[0] for s in sent],
+                   kinds(ind), st.prov.dul_socket is not None, st.prov.timer._start_time is not None, st.err,
+                   'OK' if okk else '<-- DISAGREE'))
+    return okk
+
+
 def explain(cname, args, famv):
     st, r, ok = start(famv['start'])
     out = ['prefix %s agreed: %r' % (PREFIX[famv['start']][1], ok)]
-    for e in (args['e1'], args['e2'], args['e3'])[:_depth()]:
+    if cname == 'glued':
+        first, second = PEER_EVENTS[args['e1']], PEER_EVENTS[args['e2']]
+        try:
+            exp = ref_apply_glued(r, first, second)
+        except ref.Undefined:
+            exp = None
+        if exp is None:
+            return 'not producible'
+        st.inject_glued(first, second)
+        _explain_step(st, r, first + '+' + second + ' in one segment', exp, out)
+        return '\n'.join(out)
+    for e, dt in ((args['e1'], args['dt1']), (args['e2'], args['dt2']), (args['e3'], args['dt3']))[:_depth()]:
         name = ALPH_REQ1[e]
+        exp = ref_advance(r, dt)
+        if exp == 'boundary':
+            out.append('boundary')
+            break
+        st.advance(dt)
+        if not _explain_step(st, r, 'clock +%d s' % dt, exp, out):
+            break
         try:
             exp = ref_apply(r, name)
         except ref.Undefined:
@@ -336,14 +469,6 @@ def explain(cname, args, famv):
             out.append('%s: cannot occur / not legal in reference Sta%d - skipped' % (name, r.state))
             continue
         st.inject(name)
-        sent = st.sock.sent[st.n_sent:]
-        ind = st.prov.to_service_user.log[st.n_ind:]
-        okk = agree(st, r, name, exp)
-        out.append('%s: reference -> Sta%d sends %r indicates %r transport=%r artim=%r | provider -> Sta%d sends %r '
-                   'indicates %r transport=%r artim=%r err=%r %s' % (
-                       name, r.state, exp[0], exp[1], r.transport, r.artim, st.state(), [s[0] for s in sent],
-                       kinds(ind), st.prov.dul_socket is not None, st.prov.timer._start_time is not None, st.err,
-                       'OK' if okk else '<-- DISAGREE'))
-        if not okk:
+        if not _explain_step(st, r, name, exp, out):
             break
     return '\n'.join(out)
